@@ -1,5 +1,6 @@
 (* C06 — memory is a transparent cache: at most one objective call per point.  Statements only. *)
 Require Import Base StopRun Converter Driver DriverObs DriverFacts ConverterFacts MemFacts C04_proofs Shared SharedFacts C06_sim.
+Require Import PyPrims PyPrimsQ MemGen MemTie.
 From Coq Require Import Bool.
 
 (* single process (call_record): with memory on, the objective calls of a call are pairwise distinct
@@ -41,3 +42,30 @@ Example C06_shared_nonvacuous :
   | Some (ps, m) => map (outs nat nat) ps = [[(2, 4); (1, 1)]; [(1, 1); (2, 4)]]%nat
   | None => False end.
 Proof. vm_compute. reflexivity. Qed.
+
+(* ---------- the wrapper GENERATED from /repo's _memory.py (generated/MemGen.v) refines the memory branch of the model's lookup,
+   which the theorems above are about: for every dictionary state, objective and value vector (parameter names pairwise distinct) *)
+Theorem C06_source_memory_wrapper_refines : forall (OP : optimizer) sp names f (s : drv OP) (v : values),
+  NoDup names -> length names = length v -> c_memory (d_call s) = true ->
+  match g_Memory_wrapper sp names f (mem_of s) (value2para names v) with
+  | Ok (g', r) => Driver.lookup sp f s v = Ok (r, with_mem s g')
+  | Err e => Driver.lookup sp f s v = Err e
+  end.
+Proof. exact (@memory_wrapper_tie). Qed.
+Print Assumptions C06_source_memory_wrapper_refines.
+
+(* a hit never calls the objective and returns the stored result unchanged; a miss calls it exactly once, on the value vector, and
+   stores the result under the key in memory_dict and memory_dict_new *)
+Theorem C06_source_memory_hit : forall sp names f (g : g_mem) (v : values) key r,
+  NoDup names -> length names = length v -> value2position sp v = Ok key -> dict_get pos_eqb key (mg_memory_dict g) = Some r ->
+  g_Memory_wrapper sp names f g (value2para names v) = Ok (g, r).
+Proof. exact memory_wrapper_hit. Qed.
+Print Assumptions C06_source_memory_hit.
+Theorem C06_source_memory_miss : forall sp names f (g : g_mem) (v : values) key,
+  NoDup names -> length names = length v -> value2position sp v = Ok key -> dict_get pos_eqb key (mg_memory_dict g) = None ->
+  g_Memory_wrapper sp names f g (value2para names v) =
+  Ok (mkGMem (dict_set pos_eqb key (f (length (mg_fcalls g)) v) (mg_memory_dict g))
+             (dict_set pos_eqb key (f (length (mg_fcalls g)) v) (mg_memory_dict_new g))
+             (mg_fcalls g ++ [v]), f (length (mg_fcalls g)) v).
+Proof. exact memory_wrapper_miss. Qed.
+Print Assumptions C06_source_memory_miss.
